@@ -165,6 +165,8 @@ func propC19(t *rapid.T, is64 bool) {
 		m map[uint64]*big.Int
 	}
 	var originals, operands []kept
+	bulk := false
+	const bulkBase = uint64(7 << 16) // chunk 7: none of the universe's columns lives there
 	sawNeg, sawWiden, copyAfter := false, false, false
 	width := x.BitCount()
 	auto := f.max == 0 && f.min == 0
@@ -202,6 +204,50 @@ func propC19(t *rapid.T, is64 bool) {
 			log("ClearValues(%v)", cols)
 			x.Clear(cols)
 			for _, c := range cols {
+				delete(m, c)
+			}
+		},
+		"SetManyComb": func(t *rapid.T) {
+			// thousands of scattered columns in one 65536-chunk (the existence and plane bitmaps become
+			// bitmap containers there), all with one value
+			if bulk {
+				t.Skip("one comb per history")
+			}
+			bulk = true
+			step := uint64(rapid.IntRange(2, 5).Draw(t, "step"))
+			n := rapid.IntRange(4097, 6000).Draw(t, "n")
+			v := drawValue(t, "v", f, false)
+			cols := make([]uint64, 0, n)
+			for i, c := 0, bulkBase; i < n; i, c = i+1, c+step {
+				cols = append(cols, c)
+			}
+			log("SetMany(%d columns from %d step %d, %d)", n, bulkBase, step, v)
+			x.SetMany(cols, v)
+			for _, c := range cols {
+				m[c] = big.NewInt(v)
+			}
+			// probe a few of them from now on
+			u = append(append([]uint64(nil), u...), cols[0], cols[1], cols[n/2], cols[n-1], cols[n-1]+1, bulkBase+1)
+		},
+		"ClearRange": func(t *rapid.T) {
+			// ClearValues with a found-set that is one interval (a run container), ending on / next to a 64-column word edge
+			if !bulk {
+				t.Skip("needs the comb")
+			}
+			lo := bulkBase + uint64(rapid.IntRange(0, 20000).Draw(t, "lo"))
+			hi := lo + uint64(rapid.IntRange(0, 3000).Draw(t, "len"))
+			switch rapid.IntRange(0, 3).Draw(t, "edge") {
+			case 0:
+				hi = hi &^ 63
+			case 1:
+				hi = hi | 63
+			}
+			if hi < lo {
+				hi = lo
+			}
+			log("ClearValues(range %d..%d)", lo, hi)
+			x.ClearRange(lo, hi)
+			for c := lo; c <= hi; c++ {
 				delete(m, c)
 			}
 		},
@@ -363,6 +409,9 @@ func propC19(t *rapid.T, is64 bool) {
 				inst.Count("C19", "avoided:known-finding bsi64-marshal-sign-plane")
 				t.Skip("known finding")
 			}
+			// always into a fresh index: UnmarshalBinary(bitData) fills and extends the planes of its receiver
+			// and never truncates them, i.e. it is written for a new index (only ReadFrom resets its receiver)
+			usedReceiver = 0
 			log("MarshalBinary -> UnmarshalBinary")
 			nx, err := x.MarshalRoundTrip()
 			if err != nil {
@@ -375,11 +424,13 @@ func propC19(t *rapid.T, is64 bool) {
 			copyAfter = copyAfter || (sawNeg && sawWiden)
 		},
 		"StreamRoundTrip": func(t *rapid.T) {
+			usedReceiver = rapid.IntRange(0, 2).Draw(t, "receiver")
+			defer func() { usedReceiver = 0 }()
 			nx, err, ok := x.StreamRoundTrip()
 			if !ok {
 				t.Skip("no WriteTo/ReadFrom in this implementation")
 			}
-			log("WriteTo -> ReadFrom")
+			log("WriteTo -> ReadFrom (receiver class %d)", usedReceiver)
 			if err != nil {
 				fail("stream round trip: %v", err)
 			}
